@@ -41,7 +41,7 @@ def run(rep, tier, seed):
         raise tlc.MachineryError("leg A: MC_GrammarPath violated on the shipped specification\n" + a["out"][-2500:])
     rng = random.Random(seed + 12)
     events, recipes = [], {}
-    for _ in range(2500 if tier == "quick" else 80000):
+    for _ in range(3500 if tier == "quick" else 80000):
         doc = gen.document(rng, depth=3, strish=0.7)
         via_specs = rng.random() < 0.5
         # conditions with JSON-representable, well-typed arguments (what a spec can express); the parts are
